@@ -3,6 +3,8 @@ import Capella.Model.Geom
 import Capella.Model.GeomEdge
 import Capella.Model.GeomTree
 import Capella.Model.GeomCircle
+import Capella.Model.GeomEdgeEnd
+import Capella.Gen.GeomCmp
 /-!
 Line-protocol driver for `Capella.Geom` (property C17).
 
@@ -191,8 +193,41 @@ def treeAnswer (oh m : Rat) (n : Node) : Json :=
   | .error e => Json.mkObj [("e", Json.str (errName e)), ("br", tags)]
   | .ok p => Json.mkObj [("boxes", Json.arr (p.boxes.map jbox).toArray), ("br", tags)]
 
+/-! ### edges attached to edges (`Model/GeomEdgeEnd.lean`) -/
+
+/-- `{"box": [x, y, w, h], "port": b, "labels": [...]}` or `{"edge": [[x, y], ...], "labels": [...]}` -/
+def endOf (j : Json) : Except String End := do
+  let labels ← boxesOf (← get j "labels")
+  match j.getObjVal? "edge" with
+  | .ok pts => pure (.edge (← (← pts.getArr?).toList.mapM v2Of) labels)
+  | .error _ =>
+    let port ← (do let p ← get j "port"; p.getBool?) <|> pure false
+    pure (.box (← boxOf (← get j "box") port) labels)
+
+def endTag (pre : String) : End → String
+  | .box _ _ => pre ++ ":box"
+  | .edge pts _ => pre ++ (match edgeCenter pts with | some _ => ":edge:axis-parallel" | none => ":edge:oblique-segments")
+
+def edgeEAnswer (i : EdgeInE) : Json :=
+  let bend := extractRelBendpoints i.src.bounds i.anchor i.rel
+  let tags := [endTag "endE:src" i.src, endTag "endE:tgt" i.tgt,
+    if bend = [] then "endE:route:" ++ (match i.style with | .oblique => "oblique" | .manhattan => "manhattan" | .tree => "tree") else "endE:stored"]
+  match edgeRouteE decMid i with
+  | .error e => Json.mkObj [("e", Json.str (errName e)), ("br", toJson tags)]
+  | .ok out => Json.mkObj [("pts", Json.arr (out.map jv2).toArray), ("br", toJson tags)]
+
 def handle (op : String) (j : Json) : Except String Json := do
   match op with
+  | "sites" =>
+    -- the generated comparison-site table with the class of every site, and the declared jumps
+    pure (Json.mkObj [("sites", Json.arr ((Capella.Gen.GeomCmp.sites.map fun s => Json.mkObj [("file", Json.str s.file), ("func", Json.str s.func),
+        ("op", Json.str s.op), ("lhs", Json.str s.lhs), ("rhs", Json.str s.rhs), ("tol", Json.str s.tol), ("coord", Json.bool s.coord),
+        ("class", Json.str (classify s).tag)]).toArray)),
+      ("jumps", toJson Capella.Gen.GeomCmp.declaredJumps)])
+  | "edgeE" =>
+    let i : EdgeInE := { src := ← endOf (← get j "src"), tgt := ← endOf (← get j "tgt"), anchor := ← v2Of (← get j "anchor"),
+                         rel := ← (← (← get j "rel").getArr?).toList.mapM v2Of, style := ← styleOf (← j.getObjValAs? String "style") }
+    pure (edgeEAnswer i)
   | "circle" =>
     -- residuals of the relation `circleSnapRel` on a given (float) result: all three are 0 resp. >= 0 for the exact point
     let c ← v2Of (← get j "c")
